@@ -162,6 +162,9 @@ def execute(case):
     if case.get("eof_in_ack"):
         # the stream ends inside server message m after k of its bytes (api "raw": the only connection is the key service one)
         world.default_delivery = {"eof_at": list(case["eof_in_ack"])}
+    if case.get("slow_leg"):
+        # a slow server / KDC: its message m arrives only after that many (virtual) seconds; the handshake is the same handshake
+        world.default_delivery = {"gaps": [[case["slow_leg"][0], 0, case["slow_leg"][1]]]}
     with world.installed(ctx_factory=drive.stub_ctx_factory(cfg, record)):
         if flavour == "sync":
             out = drive.classify(sync_work)
@@ -576,7 +579,7 @@ class C15(common.Check):
             "a missing token or a cleared header-sign flag; distinct = distinct (cfg, script, flavour, api). Real-context cases: NTLM and "
             "Negotiate->NTLM handshakes (recorded through a transparent proxy) against a real acceptor, header signing on/off, conforming and "
             "cut short by bind_nak / fault / EOF / request after 0..3 client PDUs. Fault: the stream ends INSIDE a bind_ack / alter_context_resp (1..70 bytes in): the call must raise, "
-            "no further client PDU, no step() fed from the truncated message.")
+            "no further client PDU, no step() fed from the truncated message. A slow server whose handshake message (or reply) arrives after 31 s .. 2 h: judged like the prompt one.")
     components = {"client": "real (RpcClient.bind/request, _sync_get_key/_async_get_key, AuthenticationProvider)",
                   "peer": "scripted (ref.rpce encoders)", "security context": "stub (StubCtx, records every call); plus the real pyspnego NTLM and Negotiate->NTLM initiator (behind a recording proxy) against a real acceptor",
                   "endpoint mapper": "model (RefDC)", "transport": "simulated"}
@@ -584,7 +587,7 @@ class C15(common.Check):
                    "an alter_context_resp answering a bind (and vice versa) is recorded, not judged",
                    "context results inside alter_context_resp are recorded, not judged"]
     required_fired = ("terminal_nak", "terminal_fault", "terminal_eof", "terminal_request", "hs_on", "hs_off", "conforming_success",
-                      "real_success", "real_ntlm", "real_negotiate", "real_terminal_nak", "real_terminal_eof", "bind_ack_answers_alter_context", "thread_pairs", "thread_overlap", "hs_first_ack_without_flag_later_with", "stream_ended_inside_handshake_pdu")
+                      "real_success", "real_ntlm", "real_negotiate", "real_terminal_nak", "real_terminal_eof", "bind_ack_answers_alter_context", "thread_pairs", "thread_overlap", "hs_first_ack_without_flag_later_with", "stream_ended_inside_handshake_pdu", "slow_handshake_leg")
 
     def exhaustive(self, tier):
         return True
@@ -621,6 +624,14 @@ class C15(common.Check):
                                 for k_ in (1, 15, 16, 17, 20, 24, 27, 28, 36, 44, 52, 60, 70):
                                     if tier == "thorough" or (k_ + m + legs) % 2 == 0 or k_ in (17, 28):
                                         out.append({"cfg": {"legs": legs, "empty_last": False, "sig": 16}, "script": scr, "flavour": fl, "api": "raw", "seed": len(out), "eof_in_ack": [m, k_]})
+        # a slow server: one of its handshake messages (or the reply) arrives after 31 s .. 2 h
+        for legs in (2, 3, 4):
+            for fl in ("sync", "async"):
+                for m in range(legs + 1):
+                    for secs in (31.0, 120.0, 7200.0):
+                        if tier == "thorough" or (m + legs + int(secs)) % 2 == 0 or secs == 31.0:
+                            out.append({"cfg": {"legs": legs, "empty_last": False, "sig": 16}, "script": [["ack", "pos", "AN", 1, "tok"] for _ in range(legs)] + [["response"]],
+                                        "flavour": fl, "api": "raw", "seed": len(out), "slow_leg": [m, secs]})
         # two handshakes at once from caller threads (one server advertises header signing, the other does not; 2 and 3 legs)
         from checks import threadpure
 
@@ -667,7 +678,9 @@ class C15(common.Check):
             return run_real(case)
         out, world, peer, record, conn = execute(case)
         viol, probes = judge(case, out, world, peer, record, conn)
-        nontrivial = any(el[0] != "ack" or el[2] != "AN" or el[3] != 1 or el[4] != "tok" for el in case["script"][:-1]) or case["script"][-1] != ["response"]
+        if case.get("slow_leg"):
+            probes["slow_handshake_leg"] = 1
+        nontrivial = bool(case.get("slow_leg")) or any(el[0] != "ack" or el[2] != "AN" or el[3] != 1 or el[4] != "tok" for el in case["script"][:-1]) or case["script"][-1] != ["response"]
         return {"viol": viol, "digest": world.digest() + out.brief(), "key": common.key_hash(case) if nontrivial else None,
                 "fired": {"script_elements_played": len(peer.sent), "peer_eof": world.stats.get("peer_eof", 0)}, "probes": probes,
                 "vtime_ns": world.stats.get("vtime_ns", 0)}
